@@ -35,8 +35,9 @@ import traceback
 import gffutils
 
 _MP = multiprocessing.get_context("fork")
-WAIT = 60.0          # upper bound (s) for any wait on another process
+WAIT = 30.0          # upper bound (s) for any wait on another process
 TABLES = ("features", "relations", "meta", "directives", "autoincrements", "duplicates")
+MAX_FAILS = 40       # a unit stops enumerating once it has this many failures (a broken tree fails slowly: timeouts)
 SENTINELS = {"unrelated.keep": "not yours\n", "foreign.gffutils": "someone else's intermediate file\n"}
 
 
@@ -260,10 +261,15 @@ def _use_tmp(shared):
 
 def _import_child(job, shared, barrier):
     _use_tmp(shared)
-    if job.get("cwd"):
-        os.chdir(job["cwd"])
-    if barrier is not None:
-        barrier.wait(WAIT)
+    try:
+        if job.get("cwd"):
+            os.chdir(job["cwd"])
+        if barrier is not None:
+            barrier.wait(WAIT)
+    except BaseException:
+        if barrier is not None:
+            barrier.abort()
+        raise
     if job.get("offset"):
         time.sleep(job["offset"])
     data, kwargs = job["data"], dict(job["kwargs"])
@@ -591,6 +597,8 @@ def unit_bounded_imports(U):
             for ci, (scheme, mx) in enumerate(combos):
                 rounds.append((counts[(ci + ci // 5) % len(counts)], OFFSETS[(ci + ci // 4) % len(OFFSETS)], scheme, mx))
         for n, off, scheme, mx in rounds:
+            if len(fails) >= MAX_FAILS:
+                break
             picks = mix(mx, n, U.rng)
             for p in picks:
                 W.solitary(*p)
@@ -715,6 +723,8 @@ def unit_bounded_interleave(U):
                 picks = [firsts[(k + i) % len(firsts)] if i < d - 1 else seconds[(k * 5 + i) % len(seconds)] for i in range(d)]
                 plans.append((picks, [fr[(k + i) % len(fr)] for i in range(d - 1)], schemes[k % len(schemes)], ("lifo", "fifo")[k % 2]))
         for picks, fracs, scheme, resume in plans:
+            if len(fails) >= MAX_FAILS:
+                break
             jobs, allowed = make_jobs(W, picks, scheme, [0.0] * len(picks))
             case = {"schedule": "freeze each run but the last while its intermediate file exists (after the given fraction of that file's "
                                 "solitary life time), run the last to completion, resume %s" % resume,
@@ -744,6 +754,15 @@ def unit_bounded_interleave(U):
 # unit 3: concurrent readers
 # ----------------------------------------------------------------------------------------------
 def _reader_child(dbfn, shared, mode, offset, b1, b2):
+    try:
+        return _reader(dbfn, shared, mode, offset, b1, b2)
+    except BaseException:      # do not keep the other readers waiting for this one
+        b1.abort()
+        b2.abort()
+        raise
+
+
+def _reader(dbfn, shared, mode, offset, b1, b2):
     """what ONE reader observes through the gffutils API"""
     _use_tmp(shared)
     if mode == "open-then-barrier":
@@ -834,6 +853,8 @@ def unit_bounded_readers(U):
             read_time = solo["t1"] - solo["t0"]
             for n in counts:
                 for mode in modes:
+                    if len(fails) >= MAX_FAILS:
+                        break
                     b1, b2 = _MP.Barrier(n), _MP.Barrier(n)
                     offs = [0.0] * n if mode != "staggered" else [U.rng.uniform(0, read_time) for _ in range(n)]
                     rfs, pids = [], []
@@ -846,11 +867,14 @@ def unit_bounded_readers(U):
                     cases += 1
                     distinct.add((fmt, n, mode))
                     case = {"db": {"format": fmt, "variant": v, "n_genes": W.n_genes}, "readers": n, "mode": mode, "offsets": [round(o, 4) for o in offs]}
+                    probs = []
                     for i, r in enumerate(results):
                         prob = (r.get("error") or "failed") if not r.get("ok") else reader_problem(r["obs"], exp, solo["obs"])
                         if prob:
-                            fails.append({"case": dict(case, reader=i), "expected": "%d features, %d relations, same children/parents/directives" % (
+                            probs.append({"case": dict(case, reader=i), "expected": "%d features, %d relations, same children/parents/directives" % (
                                 exp["count"], len(exp["relations"])), "observed": prob})
+                    # readers that merely gave up waiting for a failed one are reported after the failed one
+                    fails.extend(sorted(probs, key=lambda f: "BrokenBarrier" in f["observed"]))
                     with open(dbfn, "rb") as fh:
                         if hashlib.sha1(fh.read()).hexdigest() != digest:
                             fails.append({"case": dict(case, check="file_unchanged"), "expected": "finished file unchanged by readers", "observed": "bytes changed"})
